@@ -445,6 +445,9 @@ def r19_13(run, model):
 
 
 def run(run, model):
+    # impl function names keep every component whole: two impls never share one generated name (shared with C17 R17.1)
+    from rules import c17 as _c17n
+    run.try_rule(_c17n.r17_1, model)
     run.try_rule(r19_8, model)
     run.try_rule(r19_10, model)
     run.try_rule(r19_12, model)
